@@ -2,19 +2,20 @@
 import json, os
 from . import VERIF
 
-CLAIMS = {
- "C12": dict(
-   text="Coq theorems about the executable model of typeorder (Model/Ty.v): reflexivity, coincidence with subclassing and transitivity on classes, generic aliases below their origin and argument-wise, unions above / intersections below each member, Literal/Dependent below their bound -- all for unbounded nesting; mirror symmetry proved on the decidable domain msym (no hook-vs-hook comparison), refuted outside it by vm_compute witnesses (KF-06, KF-07) and for tuple[...] vs its bound (KF-24). The model is tied to /repo on every run by running implementation and extracted model on all ordered pairs of a generated type corpus; every asymmetric pair must fall in a known-finding class and behave as the model predicts.",
-   note="Trusted: Coq kernel, extraction (ExtrOcamlBasic), OCaml driver, the hand-written model (validated by the correspondence), CPython's issubclass/hasattr (tables). No axioms (all theorems closed under the global context). Partial: full mirror symmetry is false of the code (known findings).",
-   technique="Coq proof (induction on fuel over a nested inductive of types) + differential correspondence impl vs extracted model", design="6 C12"),
- "C13": dict(
-   text="Coq theorems about the model of subclasscheck: for every type of any depth, subclasscheck(class, T) equals T's documented meaning (Spec/Denot.v: some arm / all arms / exactly / proper subclass / has method / predicate; bound for value types); reflexive; equals issubclass on classes; argument-wise covariant on generics; transitive on the fragment class <= class <= down-closed type, refuted beyond it (KF-22, KF-25). Correspondence: implementation vs extracted model on all ordered pairs; every (class, type) pair also against an independent Python reading of the documentation and, on a sample, through a real @ovld dispatch; all chained triples for transitivity.",
-   note="Same trusted base as C12. Hypotheses on the class table (partial order, hasattr inherited) are checked per generated world. Partial: transitivity is false of the code outside the proved fragment (known findings).",
-   technique="Coq proof (induction on fuel; spec function denot) + differential correspondence", design="6 C13"),
-}
+def collect_claims():
+    """Each claimed property's module vlib/props/cnn.py carries CLAIM = dict(text=, note=, technique=, design=)."""
+    import glob, importlib
+    out = {}
+    for f in sorted(glob.glob(os.path.join(VERIF, "vlib", "props", "c[0-9]*.py"))):
+        pid = os.path.basename(f)[:-3].upper()
+        mod = importlib.import_module(f"vlib.props.{pid.lower()}")
+        if getattr(mod, "CLAIM", None):
+            out[pid] = mod.CLAIM
+    return out
 
 
 def main():
+    CLAIMS = collect_claims()
     props = [json.loads(l) for l in open(os.path.join(VERIF, "properties.jsonl"))]
     checks = []
     for p in props:
@@ -32,7 +33,8 @@ def main():
                 "level_note": c["note"],
                 "technique": c["technique"],
             })
-    na = [{"property_id": p["id"], "reason": "not claimed yet: machinery under construction in this round (see DESIGN.md section 10)"}
+    na_reasons = json.load(open(os.path.join(VERIF, "not_applicable.json"))) if os.path.exists(os.path.join(VERIF, "not_applicable.json")) else {}
+    na = [{"property_id": p["id"], "reason": na_reasons.get(p["id"], "not claimed yet: machinery under construction in this round (see DESIGN.md section 10)")}
           for p in props if p["id"] not in CLAIMS]
     m = {
         "version": 1,
